@@ -12,7 +12,7 @@
  * the input it was working on and forks a new worker for the rest.
  *
  * argv[1] = scratch file for the workers' stderr (sanitizer reports),
- * argv[2] = per-name timeout in seconds (default 2).
+ * argv[2] = per-name CPU-time limit in seconds (default 2).
  */
 #define _GNU_SOURCE
 #include <errno.h>
@@ -22,6 +22,7 @@
 #include <stdlib.h>
 #include <string.h>
 #include <sys/resource.h>
+#include <sys/time.h>
 #include <sys/wait.h>
 #include <unistd.h>
 
@@ -63,14 +64,17 @@ static void worker(int from, int wfd, int tmo)
 	FILE *out = fdopen(wfd, "w");
 	int i;
 
-	signal(SIGALRM, on_alarm);
+	struct itimerval on = { { 0, 0 }, { tmo, 0 } }, off = { { 0, 0 }, { 0, 0 } };
+
+	/* CPU-time timer: a hang is an endless loop; wall-clock load must not matter */
+	signal(SIGPROF, on_alarm);
 	for (i = from; i < nr; i++) {
 		char *copy = strdup(names[i]); /* exact-size heap copy: ASan sees any over-read */
 		char *res;
 
-		alarm(tmo);
+		setitimer(ITIMER_PROF, &on, NULL);
 		res = demangle(copy);
-		alarm(0);
+		setitimer(ITIMER_PROF, &off, NULL);
 		fprintf(out, "%d ", i);
 		if (res == NULL)
 			fputs("NULL", out);
@@ -125,12 +129,10 @@ int main(int argc, char **argv)
 	int tmo = argc > 2 ? atoi(argv[2]) : 2;
 	int next = 0;
 	char **res;
-	struct rlimit rl = { 64 << 20, 64 << 20 };
 
 	outfp = stdout;
 	logfp = stdout;
 	setrlimit(RLIMIT_CORE, &(struct rlimit){ 0, 0 });
-	(void)rl;
 
 	while ((n = getline(&line, &lsz, stdin)) > 0) {
 		char *s, *d;
